@@ -965,3 +965,741 @@ Proof.
   intros a Ha. cbn [In] in Ha.
   repeat (destruct Ha as [<-|Ha]; [split; vm_compute; reflexivity|]). contradiction.
 Qed.
+
+(* ====================================================================================
+   store / load of one block
+   ==================================================================================== *)
+Definition regv (s : rstate) (r : N) : Z := match rget s r with Some v => v | None => 0 end.
+(* the register of slot n of environment position pos *)
+Definition pos_reg (n : tnum) (pos : nat) : N := (2 * N.of_nat pos + tnum_n n + RESERVED)%N.
+
+Lemma r_fresh_ok : forall n c t, r_fresh n c = Ok t -> t = pos_reg n (List.length c).
+Proof.
+  intros n c t H. unfold r_fresh, temporary_from_position in H.
+  destruct (N.ltb _ _); [|discriminate]. injection H as <-. reflexivity.
+Qed.
+Lemma pos_reg_reserved : forall n pos, (4 <= pos_reg n pos)%N.
+Proof. intros. unfold pos_reg. change RESERVED with 4%N. lia. Qed.
+Lemma pos_reg_inj : forall n n' p p', pos_reg n p = pos_reg n' p' -> n = n' /\ p = p'.
+Proof.
+  intros n n' p p' H. unfold pos_reg in H. change RESERVED with 4%N in H.
+  destruct n, n'; cbn [tnum_n] in H; split; try reflexivity; try lia.
+Qed.
+
+Lemma field_offset_val : forall n k, field_offset n k = 8 * (2 + 2 * Z.of_N k + Z.of_N (tnum_n n)).
+Proof. intros. unfold field_offset, address. change RVC.address1 with 8. reflexivity. Qed.
+Lemma field_valid : forall b n k, valid_block b -> (k < 3)%N -> valid_addr (b + field_offset n k).
+Proof.
+  intros b n k Hb Hk. rewrite field_offset_val. apply Hb. destruct n; cbn [tnum_n]; lia.
+Qed.
+Lemma field_fits12 : forall n k, (k < 3)%N -> fits12 (field_offset n k) = true.
+Proof.
+  intros n k Hk. rewrite field_offset_val. unfold fits12. destruct n; cbn [tnum_n]; apply andb_true_intro; split; apply Z.leb_le; lia.
+Qed.
+
+(* ---------- store_values: straight-line stores into the block HEAP points to ---------- *)
+Fixpoint sv_spec (s : rstate) (to_store_rev : list binding) (E : nat) (b : Z) (ff : N) (w : Z -> Z) : Z -> Z :=
+  match to_store_rev with
+  | [] => fold_left (fun w k => upd w (b + field_offset Fst k) 0) (nseq 0 ff) w
+  | x :: rest_rev =>
+      let L := (E + List.length rest_rev)%nat in
+      let w1 := upd w (b + field_offset Snd (ff - 1)) (regv s (pos_reg Snd L)) in
+      let w2 := upd w1 (b + field_offset Fst (ff - 1))
+                    (match bchi x with Ext => 0 | _ => regv s (pos_reg Fst L) end) in
+      sv_spec s rest_rev E b (ff - 1) w2
+  end.
+Fixpoint sv_defined (s : rstate) (to_store_rev : list binding) (E : nat) : Prop :=
+  match to_store_rev with
+  | [] => True
+  | x :: rest_rev =>
+      let L := (E + List.length rest_rev)%nat in
+      rget s (pos_reg Snd L) <> None /\ (bchi x <> Ext -> rget s (pos_reg Fst L) <> None) /\
+      sv_defined s rest_rev E
+  end.
+
+Lemma rget_regv : forall s r, rget s r <> None -> rget s r = Some (regv s r).
+Proof. intros s r H. unfold regv. destruct (rget s r); [reflexivity|contradiction]. Qed.
+
+Lemma nseq_succ : forall n, nseq 0 (N.succ n) = nseq 0 n ++ [n].
+Proof.
+  intros n. unfold nseq. rewrite N2Nat.inj_succ, seq_S, map_app. cbn. now rewrite N2Nat.id.
+Qed.
+
+Lemma store_zeros_exec : forall im ff i s s0 b,
+  (ff <= 3)%N -> at_code im i (store_zeros ff HEAP) ->
+  (forall r, rget s r = rget s0 r) -> rget s0 HEAP = Some b -> valid_block b ->
+  exists s', star im i s (padd i (List.length (store_zeros ff HEAP))) s' /\
+             (forall r, rget s' r = rget s0 r) /\
+             (forall a, hword s' a = fold_left (fun w k => upd w (b + field_offset Fst k) 0) (nseq 0 ff) (hword s) a).
+Proof.
+  intros im ff. induction ff as [|ff IH] using N.peano_ind; intros i s s0 b Hff Hcode Hregs Hb Hvb.
+  - exists s. cbn. repeat split; auto. apply star_refl.
+  - unfold store_zeros in *. rewrite nseq_succ in *. rewrite flat_map_app in *. cbn [flat_map store_zero app] in *.
+    apply at_code_app in Hcode as [Hc1 Hc2].
+    destruct (IH i s s0 b ltac:(lia) Hc1 Hregs Hb Hvb) as (s1 & Hs1 & Hr1 & Hw1).
+    eexists. split; [|split].
+    + rewrite app_length, padd_add. eapply star_trans; [exact Hs1|].
+      exec_next Hc2 0%nat step_SW; [rewrite Hr1; exact Hb | rewrite Hr1; reflexivity | apply field_fits12; lia | apply field_valid; [assumption|lia] |].
+      apply star_refl.
+    + intros r. regs. apply Hr1.
+    + intros a. rewrite fold_left_app. cbn [fold_left].
+      rewrite hword_sstore by (apply valid_pos, field_valid; [assumption|lia]).
+      unfold upd. destruct (a =? b + field_offset Fst ff); [reflexivity|apply Hw1].
+Qed.
+
+Theorem rv_store_values_refines : forall im to_store_rev remaining ff cs i s s0 b,
+  store_values to_store_rev remaining HEAP ff = Ok cs ->
+  (N.of_nat (List.length to_store_rev) <= ff)%N -> (ff <= 3)%N ->
+  at_code im i cs ->
+  (forall r, rget s r = rget s0 r) -> rget s0 HEAP = Some b -> valid_block b ->
+  sv_defined s0 to_store_rev (List.length remaining) ->
+  exists s',
+    star im i s (padd i (List.length cs)) s' /\
+    (forall r, rget s' r = rget s0 r) /\
+    (forall a, hword s' a = sv_spec s0 to_store_rev (List.length remaining) b ff (hword s) a).
+Proof.
+  intros im to_store_rev. induction to_store_rev as [|x rest_rev IH]; intros remaining ff cs i s s0 b Hsv Hlen Hff Hcode Hregs Hb Hvb Hdef.
+  - cbn [store_values] in Hsv. injection Hsv as <-. cbn [sv_spec]. now apply store_zeros_exec.
+  - cbn [store_values] in Hsv. cbn [List.length] in Hlen.
+    destruct (store_value x (remaining ++ rev rest_rev) HEAP (ff - 1)) as [c1|] eqn:E1; [|discriminate]. cbn [rbind] in Hsv.
+    destruct (store_values rest_rev remaining HEAP (ff - 1)) as [c2|] eqn:E2; [|discriminate]. cbn [rbind] in Hsv.
+    injection Hsv as <-.
+    cbn [sv_defined] in Hdef. destruct Hdef as (Hd1 & Hd2 & Hd3).
+    assert (HL : List.length (remaining ++ rev rest_rev) = (List.length remaining + List.length rest_rev)%nat)
+      by (rewrite app_length, rev_length; reflexivity).
+    apply at_code_app in Hcode as [Hc1 Hc2].
+    assert (Hk : (ff - 1 < 3)%N) by lia.
+    (* the two stores of this value *)
+    assert (H1 : exists s1, star im i s (padd i (List.length c1)) s1 /\ (forall r, rget s1 r = rget s0 r) /\
+                 (forall a, hword s1 a =
+                    upd (upd (hword s) (b + field_offset Snd (ff - 1)) (regv s0 (pos_reg Snd (List.length remaining + List.length rest_rev))))
+                        (b + field_offset Fst (ff - 1))
+                        (match bchi x with Ext => 0 | _ => regv s0 (pos_reg Fst (List.length remaining + List.length rest_rev)) end) a)).
+    { unfold store_value, store_field in E1.
+      destruct (r_fresh Snd (remaining ++ rev rest_rev)) as [tS|] eqn:ES; [|discriminate]. cbn [rbind] in E1.
+      apply r_fresh_ok in ES. rewrite HL in ES. subst tS.
+      destruct (bchi x) eqn:Echi.
+      3:{ (* Ext: the first slot is zeroed *)
+        injection E1 as <-. cbn [app store_zero] in *.
+        eexists. split; [|split].
+        - exec_next Hc1 0%nat step_SW; [rewrite Hregs; exact Hb | rewrite Hregs; apply rget_regv; exact Hd1 | now apply field_fits12 | now apply field_valid |].
+          exec_next Hc1 1%nat step_SW; [regs; rewrite Hregs; exact Hb | reflexivity | now apply field_fits12 | now apply field_valid |].
+          apply star_refl.
+        - intros r. regs. apply Hregs.
+        - intros a. rewrite !hword_sstore by (apply valid_pos; now apply field_valid). unfold upd. reflexivity. }
+      all: destruct (r_fresh Fst (remaining ++ rev rest_rev)) as [tF|] eqn:EF; [|discriminate]; cbn [rbind] in E1;
+           apply r_fresh_ok in EF; rewrite HL in EF; subst tF; injection E1 as <-; cbn [app] in *;
+           (eexists; split; [|split];
+            [ exec_next Hc1 0%nat step_SW; [rewrite Hregs; exact Hb | rewrite Hregs; apply rget_regv; exact Hd1 | now apply field_fits12 | now apply field_valid |];
+              exec_next Hc1 1%nat step_SW; [regs; rewrite Hregs; exact Hb | regs; rewrite Hregs; apply rget_regv; apply Hd2; discriminate | now apply field_fits12 | now apply field_valid |];
+              apply star_refl
+            | intros r; regs; apply Hregs
+            | intros a; rewrite !hword_sstore by (apply valid_pos; now apply field_valid); unfold upd; reflexivity ]). }
+    destruct H1 as (s1 & Hs1 & Hr1 & Hw1).
+    destruct (IH remaining (ff - 1)%N c2 (padd i (List.length c1)) s1 s0 b E2 ltac:(lia) ltac:(lia) Hc2 Hr1 Hb Hvb Hd3)
+      as (s2 & Hs2 & Hr2 & Hw2).
+    exists s2. split; [|split].
+    + rewrite app_length, padd_add. eapply star_trans; eassumption.
+    + exact Hr2.
+    + intros a. rewrite Hw2. cbn [sv_spec].
+      (* the spec only depends on the word function extensionally *)
+      assert (Hext : forall l E0 ff0 w w', (forall a, w a = w' a) -> forall a, sv_spec s0 l E0 b ff0 w a = sv_spec s0 l E0 b ff0 w' a).
+      { clear. induction l as [|y l IHl]; intros E0 ff0 w w' Hww a; cbn [sv_spec].
+        - revert w w' Hww a. induction (nseq 0 ff0) as [|k ks IHk]; intros w w' Hww a; cbn [fold_left]; [apply Hww|].
+          apply IHk. intros a'. unfold upd. destruct (a' =? _); [reflexivity|apply Hww].
+        - apply IHl. intros a'. unfold upd. repeat destruct (a' =? _); try reflexivity. apply Hww. }
+      apply Hext. exact Hw1.
+Qed.
+
+(* ---------- store (of at most FIELDS_PER_BLOCK values): store_values, then acquire_block ---------- *)
+Lemma r_store_one_block : forall to_store remaining lc cs lc',
+  to_store <> [] -> (List.length to_store <= 3)%nat ->
+  r_store to_store remaining lc = Ok (cs, lc') ->
+  exists sv,
+    store_values (rev to_store) remaining HEAP 3 = Ok sv /\
+    cs = sv ++ fst (acquire_block (pos_reg Fst (List.length remaining)) (pos_reg Snd (List.length remaining)) lc) /\
+    lc' = snd (acquire_block (pos_reg Fst (List.length remaining)) (pos_reg Snd (List.length remaining)) lc).
+Proof.
+  intros to_store remaining lc cs lc' Hne Hlen H.
+  unfold r_store in H. cbn [store_fields] in H.
+  destruct to_store as [|x r]; [contradiction|].
+  change (FIELDS_PER_BLOCK - bp_n Last)%N with 3%N in H.
+  assert (Hle : N.leb (N.of_nat (List.length (x :: r))) 3 = true) by (apply N.leb_le; lia).
+  rewrite Hle in H. change (N.to_nat 0) with 0%nat in H. cbn [firstn skipn] in H.
+  rewrite app_nil_r in H. cbn [rbind] in H.
+  destruct (store_values (rev (x :: r)) remaining HEAP 3) as [sv|] eqn:Esv; [|discriminate]. cbn [rbind] in H.
+  destruct (r_fresh Fst remaining) as [t|] eqn:Et; [|discriminate]. cbn [rbind] in H.
+  destruct (r_fresh Snd remaining) as [t2|] eqn:Et2; [|discriminate]. cbn [rbind] in H.
+  apply r_fresh_ok in Et. apply r_fresh_ok in Et2. subst t t2.
+  destruct (acquire_block (pos_reg Fst (List.length remaining)) (pos_reg Snd (List.length remaining)) lc) as [c2 lc2] eqn:EA.
+  cbn [List.length store_fields rbind] in H. injection H as <- <-.
+  exists sv. split; [reflexivity|]. cbn [fst snd]. now rewrite app_nil_r.
+Qed.
+
+(* The code emitted for `let`/`create` storing 1..3 values: the values of the last |to_store|
+   environment positions are written into the block HEAP points to (unused first slots zeroed,
+   first slot of an integer field zeroed), then the block is acquired into the first register of
+   the position after the remaining context and HEAP/FREE are re-established as the abstract
+   `acquire` says.  Registers of the remaining context are untouched. *)
+Theorem rv_store_one_block_refines : forall im i to_store remaining lc cs lc' s h,
+  to_store <> [] -> (List.length to_store <= 3)%nat ->
+  r_store to_store remaining lc = Ok (cs, lc') ->
+  placed im i cs ->
+  represents s h -> valid_block (hp h) ->
+  sv_defined s (rev to_store) (List.length remaining) ->
+  let h1 := {| words := sv_spec s (rev to_store) (List.length remaining) (hp h) 3 (words h); hp := hp h; fp := fp h |} in
+  (words h1 (hp h) = 0 -> valid_block (fp h)) ->
+  (words h1 (hp h) = 0 -> words h1 (fp h) <> 0 ->
+     children_ok (fp h) [0; 1; 2]%N {| words := upd (words h1) (fp h) 0; hp := fp h; fp := words h1 (fp h) |}) ->
+  exists s',
+    star im i s (padd i (List.length cs)) s' /\
+    represents s' (snd (a_acquire h1)) /\
+    rget s' (pos_reg Fst (List.length remaining)) = Some (hp h) /\
+    (forall r, (4 <= r)%N -> (r < pos_reg Fst (List.length remaining))%N -> rget s' r = rget s r).
+Proof.
+  intros im i to_store remaining lc cs lc' s h Hne Hlen Hst Hpl Hrep Hvb Hdef h1 Hc3 Hc2.
+  destruct (r_store_one_block _ _ _ _ _ Hne Hlen Hst) as (sv & Hsv & -> & _).
+  apply placed_app in Hpl as [[Hcsv _] Hpacq].
+  destruct Hrep as (Hw & Hhp & Hfp).
+  destruct (rv_store_values_refines im (rev to_store) remaining 3 sv i s s (hp h) Hsv
+              ltac:(rewrite rev_length; lia) ltac:(lia) Hcsv (fun r => eq_refl) Hhp Hvb Hdef) as (s1 & Hs1 & Hr1 & Hw1).
+  set (t := pos_reg Fst (List.length remaining)) in *. set (t2 := pos_reg Snd (List.length remaining)) in *.
+  pose proof (pos_reg_reserved Fst (List.length remaining)) as Ht4.
+  pose proof (pos_reg_reserved Snd (List.length remaining)) as Hu4.
+  assert (Hrep1 : represents s1 h1).
+  { unfold h1. split; [|split]; cbn [words hp fp].
+    - intros a. rewrite Hw1.
+      assert (Hext : forall l E0 ff0 w w', (forall a, w a = w' a) -> forall a, sv_spec s l E0 (hp h) ff0 w a = sv_spec s l E0 (hp h) ff0 w' a).
+      { clear. induction l as [|y l IHl]; intros E0 ff0 w w' Hww a; cbn [sv_spec].
+        - revert w w' Hww a. induction (nseq 0 ff0) as [|k ks IHk]; intros w w' Hww a; cbn [fold_left]; [apply Hww|].
+          apply IHk. intros a'. unfold upd. destruct (a' =? _); [reflexivity|apply Hww].
+        - apply IHl. intros a'. unfold upd. repeat destruct (a' =? _); try reflexivity. apply Hww. }
+      apply Hext. exact Hw.
+    - rewrite Hr1. exact Hhp.
+    - rewrite Hr1. exact Hfp. }
+  assert (Hvr : valid_addr (hp h1)).
+  { cbn [hp h1]. replace (hp h) with (hp h + 8 * 0) by lia. apply Hvb. lia. }
+  destruct (rv_acquire_block_refines im (padd i (List.length sv)) t t2 lc s1 h1 Hpacq) as (s2 & Hs2 & Hrep2 & Ht2 & Hfr2);
+    try assumption;
+    try (unfold t, t2, ZERO, TEMP, HEAP, FREE; cbn; intro Heq; rewrite Heq in *; lia).
+  - unfold t, t2. intro Heq. apply pos_reg_inj in Heq as [Heq _]. discriminate.
+  - exists s2. split; [|split; [|split]].
+    + rewrite app_length, padd_add. eapply star_trans; eassumption.
+    + exact Hrep2.
+    + rewrite Ht2. unfold a_acquire. cbn [hp h1]. destruct (negb _); [reflexivity|]. destruct (_ =? 0); reflexivity.
+    + intros r Hr4 Hrt. rewrite Hfr2; [apply Hr1| | | | |];
+        intro Heq; subst r; unfold t, t2, pos_reg in *; cbn [tnum_n] in *;
+        change RESERVED with 4%N in *; change TEMP with 1%N in *; change HEAP with 2%N in *; change FREE with 3%N in *; lia.
+Qed.
+
+(* ---------- load_values, release mode: straight-line loads from the block ---------- *)
+Fixpoint lv_spec (w : Z -> Z) (to_load_rev : list binding) (E : nat) (b : Z) (ff : N) (rg : N -> option Z) : N -> option Z :=
+  match to_load_rev with
+  | [] => rg
+  | x :: rest_rev =>
+      let L := (E + List.length rest_rev)%nat in
+      let rg1 := fun r => if N.eqb r (pos_reg Snd L) then Some (w (b + field_offset Snd (ff - 1))) else rg r in
+      let rg2 := match bchi x with
+                 | Ext => rg1
+                 | _ => fun r => if N.eqb r (pos_reg Fst L) then Some (w (b + field_offset Fst (ff - 1))) else rg1 r
+                 end in
+      lv_spec w rest_rev E b (ff - 1) rg2
+  end.
+
+Lemma lv_spec_cons : forall w x rest_rev E b ff rg,
+  lv_spec w (x :: rest_rev) E b ff rg =
+  lv_spec w rest_rev E b (ff - 1)
+    (match bchi x with
+     | Ext => fun r => if N.eqb r (pos_reg Snd (E + List.length rest_rev)) then Some (w (b + field_offset Snd (ff - 1))) else rg r
+     | _ => fun r => if N.eqb r (pos_reg Fst (E + List.length rest_rev)) then Some (w (b + field_offset Fst (ff - 1)))
+                     else if N.eqb r (pos_reg Snd (E + List.length rest_rev)) then Some (w (b + field_offset Snd (ff - 1))) else rg r
+     end).
+Proof. intros. cbn [lv_spec]. destruct (bchi x); reflexivity. Qed.
+
+Lemma lv_spec_ext : forall l w w' E b ff rg rg',
+  (forall a, w a = w' a) -> (forall r, rg r = rg' r) -> forall r, lv_spec w l E b ff rg r = lv_spec w' l E b ff rg' r.
+Proof.
+  induction l as [|x l IH]; intros w w' E b ff rg rg' Hw Hr r; cbn [lv_spec]; [apply Hr|].
+  apply IH; [assumption|]. intros r'. destruct (bchi x); repeat destruct (N.eqb r' _); try rewrite Hw; try reflexivity; apply Hr.
+Qed.
+
+Lemma rget_rset_eqb : forall s t v r, (4 <= t)%N -> rget (rset s t v) r = if N.eqb r t then v else rget s r.
+Proof.
+  intros s t v r Ht. destruct (N.eqb_spec r t) as [->|Hne].
+  - apply rget_rset_same. lia.
+  - apply rget_rset_other. congruence.
+Qed.
+
+Theorem rv_load_values_release : forall im to_load_rev existing ff cs lc lc' i s b,
+  load_values to_load_rev existing (pos_reg Fst (List.length existing)) ff Release lc = Ok (cs, lc') ->
+  (N.of_nat (List.length to_load_rev) <= ff)%N -> (ff <= 3)%N ->
+  at_code im i cs ->
+  rget s (pos_reg Fst (List.length existing)) = Some b -> valid_block b ->
+  exists s',
+    star im i s (padd i (List.length cs)) s' /\
+    (forall r, rget s' r = lv_spec (hword s) to_load_rev (List.length existing) b ff (rget s) r) /\
+    (forall a, hword s' a = hword s a) /\ lc' = lc.
+Proof.
+  intros im to_load_rev. induction to_load_rev as [|x rest_rev IH]; intros existing ff cs lc lc' i s b Hlv Hlen Hff Hcode Hblk Hvb.
+  - cbn [load_values] in Hlv. injection Hlv as <- <-. exists s. cbn. repeat split; auto. apply star_refl.
+  - cbn [load_values] in Hlv. cbn [List.length] in Hlen.
+    destruct (load_value x (existing ++ rev rest_rev) (pos_reg Fst (List.length existing)) (ff - 1) Release lc) as [[c1 lc1]|] eqn:E1; [|discriminate].
+    cbn [rbind] in Hlv.
+    destruct (load_values rest_rev existing (pos_reg Fst (List.length existing)) (ff - 1) Release lc1) as [[c2 lc2]|] eqn:E2; [|discriminate].
+    cbn [rbind] in Hlv. injection Hlv as <- <-.
+    assert (HL : List.length (existing ++ rev rest_rev) = (List.length existing + List.length rest_rev)%nat)
+      by (rewrite app_length, rev_length; reflexivity).
+    apply at_code_app in Hcode as [Hc1 Hc2].
+    assert (Hk : (ff - 1 < 3)%N) by lia.
+    set (E := List.length existing) in *. set (L := (E + List.length rest_rev)%nat) in *.
+    (* the loads of this value *)
+    assert (H1 : exists s1, star im i s (padd i (List.length c1)) s1 /\ lc1 = lc /\
+                 (forall a, hword s1 a = hword s a) /\
+                 (forall r, rget s1 r =
+                    match bchi x with
+                    | Ext => if N.eqb r (pos_reg Snd L) then Some (hword s (b + field_offset Snd (ff - 1))) else rget s r
+                    | _ => if N.eqb r (pos_reg Fst L) then Some (hword s (b + field_offset Fst (ff - 1)))
+                           else if N.eqb r (pos_reg Snd L) then Some (hword s (b + field_offset Snd (ff - 1))) else rget s r
+                    end)).
+    { unfold load_value, load_field in E1.
+      destruct (r_fresh Snd (existing ++ rev rest_rev)) as [tS|] eqn:ES; [|discriminate]. cbn [rbind] in E1.
+      apply r_fresh_ok in ES. rewrite HL in ES. subst tS. fold L in E1.
+      pose proof (pos_reg_reserved Snd L) as HS4. pose proof (pos_reg_reserved Fst L) as HF4.
+      assert (Hne : pos_reg Snd L <> pos_reg Fst E) by (intro Heq; apply pos_reg_inj in Heq as [Heq _]; discriminate).
+      destruct (bchi x) eqn:Echi.
+      3:{ injection E1 as <- <-. eexists. split; [|split; [|split]].
+          - exec_next Hc1 0%nat step_LW; [exact Hblk | now apply field_fits12 | now apply field_valid |]. apply star_refl.
+          - reflexivity.
+          - intros a. apply hword_rset.
+          - intros r. now rewrite rget_rset_eqb. }
+      all: destruct (r_fresh Fst (existing ++ rev rest_rev)) as [tF|] eqn:EF; [|discriminate]; cbn [rbind] in E1;
+           apply r_fresh_ok in EF; rewrite HL in EF; subst tF; fold L in E1; injection E1 as <- <-;
+           (eexists; split; [|split; [|split]];
+            [ exec_next Hc1 0%nat step_LW; [exact Hblk | now apply field_fits12 | now apply field_valid |];
+              exec_next Hc1 1%nat step_LW; [rewrite rget_rset_other by exact Hne; exact Hblk | now apply field_fits12 | now apply field_valid |];
+              apply star_refl
+            | reflexivity
+            | intros a; now rewrite !hword_rset
+            | intros r; rewrite !rget_rset_eqb by assumption; now rewrite hword_rset ]). }
+    destruct H1 as (s1 & Hs1 & -> & Hw1 & Hr1).
+    destruct rest_rev as [|y rest'].
+    + (* this was the first variable: nothing follows (its first register may be the block register) *)
+      cbn [load_values] in E2. injection E2 as <- <-.
+      exists s1. split; [|split; [|split]].
+      * rewrite app_nil_r. exact Hs1.
+      * intros r. rewrite Hr1. cbn [lv_spec]. fold E. fold L.
+        destruct (bchi x); repeat destruct (N.eqb r _); reflexivity.
+      * exact Hw1.
+      * reflexivity.
+    + assert (Hblk1 : rget s1 (pos_reg Fst E) = Some b).
+      { rewrite Hr1. assert (HLE : L <> E) by (unfold L; cbn [List.length]; lia).
+        assert (N.eqb (pos_reg Fst E) (pos_reg Snd L) = false) as -> by (apply N.eqb_neq; intro Heq; apply pos_reg_inj in Heq as [Heq _]; discriminate).
+        assert (N.eqb (pos_reg Fst E) (pos_reg Fst L) = false) as -> by (apply N.eqb_neq; intro Heq; apply pos_reg_inj in Heq as [_ Heq]; congruence).
+        destruct (bchi x); exact Hblk. }
+      destruct (IH existing (ff - 1)%N c2 lc lc2 (padd i (List.length c1)) s1 b E2 ltac:(cbn [List.length] in *; lia) ltac:(lia) Hc2 Hblk1 Hvb)
+        as (s2 & Hs2 & Hr2 & Hw2 & ->).
+      exists s2. split; [|split; [|split]].
+      * rewrite app_length, padd_add. eapply star_trans; eassumption.
+      * intros r. rewrite Hr2. rewrite (lv_spec_cons (hword s) x). fold L.
+        apply lv_spec_ext; [exact Hw1|]. intros r'. rewrite Hr1.
+        destruct (bchi x); reflexivity.
+      * intros a. now rewrite Hw2.
+      * reflexivity.
+Qed.
+
+Lemma padd_S : forall n i, padd i (S n) = Pos.succ (padd i n).
+Proof. intros. cbn [padd]. apply padd_succ. Qed.
+Lemma one_at_next : forall im j cs n c s s',
+  at_code im j cs -> nth_error cs n = Some c -> (forall a, step im a c s = Next s') ->
+  one im (padd j n) s (padd j (S n)) s'.
+Proof.
+  intros im j cs n c s s' H Hn Hs. destruct (H n c Hn) as [Hc [a Ha]]. rewrite padd_S.
+  eapply one_next; eauto.
+Qed.
+Lemma one_at_jump : forall im j cs n c s s' t,
+  at_code im j cs -> nth_error cs n = Some c -> (forall a, step im a c s = Jump s' t) ->
+  one im (padd j n) s t s'.
+Proof.
+  intros im j cs n c s s' t H Hn Hs. destruct (H n c Hn) as [Hc [a Ha]]. eapply one_jump; eauto.
+Qed.
+
+(* ---------- load (of at most FIELDS_PER_BLOCK values), the release path ---------- *)
+Lemma load_fields_one_block : forall to_load existing m lc cs lc',
+  to_load <> [] -> (List.length to_load <= 3)%nat ->
+  load_fields (S (List.length to_load)) to_load existing Last m lc = Ok (cs, lc') ->
+  exists lv,
+    load_values (rev to_load) existing (pos_reg Fst (List.length existing)) 3 m lc = Ok (lv, lc') /\
+    cs = (match m with Release => release_block (pos_reg Fst (List.length existing)) | Share => [] end) ++ lv.
+Proof.
+  intros to_load existing m lc cs lc' Hne Hlen H.
+  cbn [load_fields] in H. destruct to_load as [|x r]; [contradiction|].
+  change (FIELDS_PER_BLOCK - bp_n Last)%N with 3%N in H.
+  assert (Hle : N.leb (N.of_nat (List.length (x :: r))) 3 = true) by (apply N.leb_le; lia).
+  rewrite Hle in H. change (N.to_nat 0) with 0%nat in H. cbn [firstn skipn] in H.
+  rewrite app_nil_r in H. cbn [List.length load_fields rbind] in H.
+  destruct (r_fresh Fst existing) as [mb|] eqn:Emb; [|discriminate]. cbn [rbind] in H.
+  apply r_fresh_ok in Emb. subst mb.
+  destruct (load_values (rev (x :: r)) existing (pos_reg Fst (List.length existing)) 3 m lc) as [[lv lc3]|] eqn:Elv; [|discriminate].
+  cbn [rbind] in H. injection H as <- <-. exists lv. split; [reflexivity|]. cbn [app]. reflexivity.
+Qed.
+
+Lemma r_load_one_block : forall to_load existing lc cs lc',
+  to_load <> [] -> (List.length to_load <= 3)%nat ->
+  r_load to_load existing lc = Ok (cs, lc') ->
+  exists thenv elsev lc2,
+    let mb := pos_reg Fst (List.length existing) in
+    load_values (rev to_load) existing mb 3 Release lc = Ok (thenv, lc) /\
+    load_values (rev to_load) existing mb 3 Share lc = Ok (elsev, lc2) /\
+    cs = [LW TEMP mb 0; BEQ TEMP ZERO (lab (lc2 + 1))]
+         ++ ([ADDI TEMP TEMP (-1); SW TEMP mb 0] ++ elsev)
+         ++ [JAL ZERO (lab (lc2 + 2)); LAB (lab (lc2 + 1))]
+         ++ (release_block mb ++ thenv)
+         ++ [LAB (lab (lc2 + 2))].
+Proof.
+  intros to_load existing lc cs lc' Hne Hlen H. unfold r_load in H.
+  destruct to_load as [|x r] eqn:Etl; [contradiction|]. rewrite <- Etl in *.
+  destruct (r_fresh Fst existing) as [mb|] eqn:Emb; [|discriminate]. cbn [rbind] in H.
+  apply r_fresh_ok in Emb. subst mb.
+  destruct (load_fields (S (List.length to_load)) to_load existing Last Release lc) as [[thenb lc1]|] eqn:E1; [|discriminate].
+  cbn [rbind] in H.
+  destruct (load_fields (S (List.length to_load)) to_load existing Last Share lc1) as [[elseb lc2]|] eqn:E2; [|discriminate].
+  cbn [rbind] in H.
+  assert (Hne' : to_load <> []) by (rewrite Etl; discriminate).
+  destruct (load_fields_one_block _ _ _ _ _ _ Hne' Hlen E1) as (thenv & Hthen & ->).
+  destruct (load_fields_one_block _ _ _ _ _ _ Hne' Hlen E2) as (elsev & Helse & ->).
+  (* release-mode load_values draws no labels *)
+  assert (Hlc1 : lc1 = lc).
+  { clear -Hthen. revert Hthen. generalize (rev to_load) 3%N thenv lc lc1.
+    induction l as [|y l IH]; intros ff cs0 lcA lcB Hl; cbn [load_values] in Hl; [now injection Hl|].
+    destruct (load_value y _ _ _ Release lcA) as [[ca lca]|] eqn:Ea; [|discriminate]. cbn [rbind] in Hl.
+    destruct (load_values l _ _ _ Release lca) as [[cb lcb]|] eqn:Eb; [|discriminate]. cbn [rbind] in Hl.
+    injection Hl as _ <-. apply IH in Eb. subst lcb.
+    unfold load_value in Ea. destruct (load_field Snd _ _ _); [|discriminate]. cbn [rbind] in Ea.
+    destruct (bchi y); try (injection Ea as _ <-; reflexivity);
+      destruct (load_field Fst _ _ _); try discriminate; cbn [rbind] in Ea; injection Ea as _ <-; reflexivity. }
+  subst lc1. cbn [if_zero_then_else] in H. injection H as <- _.
+  exists thenv, elsev, lc2. cbn zeta. split; [assumption|split; [assumption|]].
+  change REFERENCE_COUNT_OFFSET with 0. cbn [app]. reflexivity.
+Qed.
+
+Lemma lv_spec_pointwise : forall l w E b ff rg rg' r,
+  rg r = rg' r -> lv_spec w l E b ff rg r = lv_spec w l E b ff rg' r.
+Proof.
+  induction l as [|x l IH]; intros w E b ff rg rg' r H; cbn [lv_spec]; [exact H|].
+  apply IH. destruct (bchi x); repeat destruct (N.eqb r _); try reflexivity; exact H.
+Qed.
+
+(* `switch`/`invoke` loading 1..3 values from a block nobody else refers to (header 0): the block
+   goes onto the linear free list and the fields are loaded into the registers of the positions
+   after the existing context; TEMP and HEAP are the only other registers written *)
+Theorem rv_load_one_block_release_refines : forall im i to_load existing lc cs lc' s h b,
+  to_load <> [] -> (List.length to_load <= 3)%nat ->
+  r_load to_load existing lc = Ok (cs, lc') ->
+  placed im i cs ->
+  represents s h ->
+  rget s (pos_reg Fst (List.length existing)) = Some b -> valid_block b ->
+  words h b = 0 ->
+  exists s',
+    star im i s (padd i (List.length cs)) s' /\
+    represents s' (a_release b h) /\
+    (forall r, r <> TEMP -> r <> HEAP ->
+       rget s' r = lv_spec (words (a_release b h)) (rev to_load) (List.length existing) b 3 (rget s) r).
+Proof.
+  intros im i to_load existing lc cs lc' s h b Hne Hlen Hld Hpl (Hw & Hhp & Hfp) Hmb Hvb Hrc.
+  destruct (r_load_one_block _ _ _ _ _ Hne Hlen Hld) as (thenv & elsev & lc2 & Hthen & Helse & ->).
+  set (mb := pos_reg Fst (List.length existing)) in *.
+  pose proof (pos_reg_reserved Fst (List.length existing)) as Hmb4. fold mb in Hmb4.
+  assert (Hb0 : valid_addr (b + 0)) by (replace (b + 0) with (b + 8 * 0) by lia; apply Hvb; lia).
+  assert (Hbpos : 0 < b) by (apply valid_pos; now rewrite Z.add_0_r in Hb0).
+  (* decompose the placement *)
+  set (A := [LW TEMP mb 0; BEQ TEMP ZERO (lab (lc2 + 1))] ++ ([ADDI TEMP TEMP (-1); SW TEMP mb 0] ++ elsev) ++ [JAL ZERO (lab (lc2 + 2))]).
+  assert (Ecs : [LW TEMP mb 0; BEQ TEMP ZERO (lab (lc2 + 1))] ++ ([ADDI TEMP TEMP (-1); SW TEMP mb 0] ++ elsev)
+                ++ [JAL ZERO (lab (lc2 + 2)); LAB (lab (lc2 + 1))] ++ (release_block mb ++ thenv) ++ [LAB (lab (lc2 + 2))]
+                = A ++ LAB (lab (lc2 + 1)) :: (release_block mb ++ thenv) ++ [LAB (lab (lc2 + 2))]).
+  { unfold A. rewrite <- !app_assoc. reflexivity. }
+  rewrite Ecs in *. clear Ecs.
+  destruct Hpl as [Hcode HL].
+  assert (Hlthen : find_label (labels im) (lab (lc2 + 1)) = Some (padd i (List.length A))).
+  { apply HL. apply nth_error_app_at. }
+  pose proof Hcode as Hcode0.
+  apply at_code_app in Hcode as [HcA Hc1]. 
+  change (LAB (lab (lc2 + 1)) :: (release_block mb ++ thenv) ++ [LAB (lab (lc2 + 2))])
+    with ([LAB (lab (lc2 + 1))] ++ (release_block mb ++ thenv) ++ [LAB (lab (lc2 + 2))]) in Hc1.
+  apply at_code_app in Hc1 as [HcL Hc2]. rewrite <- padd_add in Hc2. cbn [List.length] in Hc2.
+  apply at_code_app in Hc2 as [Hc3 HcE]. rewrite <- padd_add in HcE.
+  apply at_code_app in Hc3 as [HcR HcV]. rewrite <- padd_add in HcV.
+  assert (HmT : TEMP <> mb) by (intro Heq; rewrite <- Heq in Hmb4; vm_compute in Hmb4; congruence).
+  assert (HmH : HEAP <> mb) by (intro Heq; rewrite <- Heq in Hmb4; vm_compute in Hmb4; congruence).
+  (* up to the loads *)
+  assert (H5 : exists s5, star im i s (padd i (List.length A + 1 + 2)) s5 /\ represents s5 (a_release b h) /\
+                          (forall r, r <> TEMP -> r <> HEAP -> rget s5 r = rget s r)).
+  { eexists. split; [|split].
+    - eapply star_step; [apply (one_at_next im i A 0 _ s _ HcA eq_refl); intros a0; eapply step_LW; [exact Hmb | reflexivity | exact Hb0] |].
+      eapply star_step; [apply (one_at_jump im i A 1 _ _ _ _ HcA eq_refl); intros a0; eapply step_BEQ0_taken; [regs; now rewrite Z.add_0_r, Hw, Hrc | exact Hlthen] |].
+      eapply star_step; [apply (one_at_next im _ _ 0 _ _ _ HcL eq_refl); intros a0; apply step_LAB |].
+      replace (padd (padd i (List.length A)) 1) with (padd (padd i (List.length A + 1)) 0) by (rewrite <- !padd_add; f_equal; lia).
+      eapply star_step; [apply (one_at_next im _ _ 0 _ _ _ HcR eq_refl); intros a0; eapply step_SW; [regs; exact Hmb | regs; exact Hhp | reflexivity | exact Hb0] |].
+      eapply star_step; [apply (one_at_next im _ _ 1 _ _ _ HcR eq_refl); intros a0; apply step_MV |].
+      replace (padd (padd i (List.length A + 1)) 2) with (padd i (List.length A + 1 + 2)) by (rewrite <- !padd_add; f_equal).
+      apply star_refl.
+    - change NEXT_ELEMENT_OFFSET with 0. rewrite !Z.add_0_r. split; [|split]; cbn [words hp fp a_release].
+      + intros a. rewrite hword_rset, hword_sstore by assumption. rewrite hword_rset.
+        unfold upd. destruct (a =? b); [reflexivity|apply Hw].
+      + regs. exact Hmb.
+      + regs. exact Hfp.
+    - intros r H1 H2. regs. reflexivity. }
+  destruct H5 as (s5 & Hs5 & Hrep5 & Hfr5).
+  assert (Hmb5 : rget s5 mb = Some b).
+  { rewrite Hfr5; [exact Hmb| |]; intro Heq; rewrite Heq in Hmb4; vm_compute in Hmb4; congruence. }
+  cbn [List.length release_block] in HcV.
+  destruct (rv_load_values_release im (rev to_load) existing 3 thenv lc lc (padd i (List.length A + 1 + 2)) s5 b Hthen
+              ltac:(rewrite rev_length; lia) ltac:(lia) HcV Hmb5 Hvb) as (s6 & Hs6 & Hr6 & Hw6 & _).
+  exists s6. split; [|split].
+  - eapply star_trans; [exact Hs5|]. eapply star_trans; [exact Hs6|].
+    rewrite app_length in HcE. cbn [List.length release_block] in HcE.
+    replace (padd (padd i (List.length A + 1 + 2)) (List.length thenv))
+      with (padd (padd i (List.length A + 1 + (2 + List.length thenv))) 0) by (rewrite <- !padd_add; f_equal; lia).
+    eapply star_step; [apply (one_at_next im _ _ 0 _ _ _ HcE eq_refl); intros a0; apply step_LAB |].
+    replace (padd (padd i (List.length A + 1 + (2 + List.length thenv))) 1)
+      with (padd i (List.length (A ++ LAB (lab (lc2 + 1)) :: (release_block mb ++ thenv) ++ [LAB (lab (lc2 + 2))]))).
+    2:{ rewrite <- !padd_add. f_equal. rewrite !app_length. cbn [List.length]. rewrite !app_length. cbn [List.length release_block]. lia. }
+    apply star_refl.
+  - destruct Hrep5 as (Hw5 & Hhp5 & Hfp5). split; [|split].
+    + intros a. rewrite Hw6. apply Hw5.
+    + rewrite Hr6. erewrite lv_spec_pointwise with (rg' := fun _ => Some (hp (a_release b h))); [|exact Hhp5].
+      clear. generalize (rev to_load) 3%N. induction l as [|x l IH]; intros ff; [reflexivity|].
+      rewrite lv_spec_cons. erewrite lv_spec_pointwise; [apply (IH (ff - 1)%N)|].
+      assert (forall n p, N.eqb HEAP (pos_reg n p) = false) as Hn
+        by (intros n p; apply N.eqb_neq; intro Heq; pose proof (pos_reg_reserved n p) as H4; rewrite <- Heq in H4; vm_compute in H4; congruence).
+      destruct (bchi x); now rewrite ?Hn.
+    + rewrite Hr6. erewrite lv_spec_pointwise with (rg' := fun _ => Some (fp (a_release b h))); [|exact Hfp5].
+      clear. generalize (rev to_load) 3%N. induction l as [|x l IH]; intros ff; [reflexivity|].
+      rewrite lv_spec_cons. erewrite lv_spec_pointwise; [apply (IH (ff - 1)%N)|].
+      assert (forall n p, N.eqb FREE (pos_reg n p) = false) as Hn
+        by (intros n p; apply N.eqb_neq; intro Heq; pose proof (pos_reg_reserved n p) as H4; rewrite <- Heq in H4; vm_compute in H4; congruence).
+      destruct (bchi x); now rewrite ?Hn.
+  - intros r H1 H2. rewrite Hr6. destruct Hrep5 as (Hw5 & _).
+    erewrite lv_spec_ext; [|exact Hw5|reflexivity]. apply lv_spec_pointwise. now apply Hfr5.
+Qed.
+
+(* ---------- load_values, share mode: every loaded pointer gains a reference ---------- *)
+Definition rupd (rg : N -> option Z) (t : N) (v : Z) : N -> option Z := fun r => if N.eqb r t then Some v else rg r.
+
+Fixpoint lvs_spec (to_load_rev : list binding) (E : nat) (b : Z) (ff : N) (rg : N -> option Z) (h : aheap)
+  : (N -> option Z) * aheap :=
+  match to_load_rev with
+  | [] => (rg, h)
+  | x :: rest_rev =>
+      let L := (E + List.length rest_rev)%nat in
+      let vS := words h (b + field_offset Snd (ff - 1)) in
+      match bchi x with
+      | Ext => lvs_spec rest_rev E b (ff - 1) (rupd rg (pos_reg Snd L) vS) h
+      | _ => let vF := words h (b + field_offset Fst (ff - 1)) in
+             lvs_spec rest_rev E b (ff - 1) (rupd (rupd rg (pos_reg Snd L) vS) (pos_reg Fst L) vF) (a_share vF 1 h)
+      end
+  end.
+Fixpoint lvs_ok (to_load_rev : list binding) (b : Z) (ff : N) (h : aheap) : Prop :=
+  match to_load_rev with
+  | [] => True
+  | x :: rest_rev =>
+      match bchi x with
+      | Ext => lvs_ok rest_rev b (ff - 1) h
+      | _ => let vF := words h (b + field_offset Fst (ff - 1)) in
+             (vF = 0 \/ valid_addr vF) /\ lvs_ok rest_rev b (ff - 1) (a_share vF 1 h)
+      end
+  end.
+
+Lemma lvs_spec_pointwise : forall l E b ff rg rg' h r,
+  rg r = rg' r -> fst (lvs_spec l E b ff rg h) r = fst (lvs_spec l E b ff rg' h) r.
+Proof.
+  induction l as [|x l IH]; intros E b ff rg rg' h r H; cbn [lvs_spec]; [exact H|].
+  destruct (bchi x); apply IH; unfold rupd; repeat destruct (N.eqb r _); try reflexivity; exact H.
+Qed.
+Lemma lvs_spec_heap_indep : forall l E b ff rg rg' h, snd (lvs_spec l E b ff rg h) = snd (lvs_spec l E b ff rg' h).
+Proof. induction l as [|x l IH]; intros; cbn [lvs_spec]; [reflexivity|]. destruct (bchi x); apply IH. Qed.
+Lemma hp_a_share : forall p n h, hp (a_share p n h) = hp h.
+Proof. intros. unfold a_share. destruct (p =? 0); reflexivity. Qed.
+Lemma fp_a_share : forall p n h, fp (a_share p n h) = fp h.
+Proof. intros. unfold a_share. destruct (p =? 0); reflexivity. Qed.
+
+Theorem rv_load_values_share : forall im to_load_rev existing ff cs lc lc' i s h b,
+  load_values to_load_rev existing (pos_reg Fst (List.length existing)) ff Share lc = Ok (cs, lc') ->
+  (N.of_nat (List.length to_load_rev) <= ff)%N -> (ff <= 3)%N ->
+  placed im i cs ->
+  represents s h ->
+  rget s (pos_reg Fst (List.length existing)) = Some b -> valid_block b ->
+  lvs_ok to_load_rev b ff h ->
+  exists s',
+    star im i s (padd i (List.length cs)) s' /\
+    represents s' (snd (lvs_spec to_load_rev (List.length existing) b ff (rget s) h)) /\
+    (forall r, r <> TEMP -> rget s' r = fst (lvs_spec to_load_rev (List.length existing) b ff (rget s) h) r).
+Proof.
+  intros im to_load_rev. induction to_load_rev as [|x rest_rev IH]; intros existing ff cs lc lc' i s h b Hlv Hlen Hff Hpl Hrep Hblk Hvb Hok.
+  - cbn [load_values] in Hlv. injection Hlv as <- <-. exists s. cbn. repeat split; try apply Hrep; auto. apply star_refl.
+  - cbn [load_values] in Hlv. cbn [List.length] in Hlen.
+    destruct (load_value x (existing ++ rev rest_rev) (pos_reg Fst (List.length existing)) (ff - 1) Share lc) as [[c1 lc1]|] eqn:E1; [|discriminate].
+    cbn [rbind] in Hlv.
+    destruct (load_values rest_rev existing (pos_reg Fst (List.length existing)) (ff - 1) Share lc1) as [[c2 lc2]|] eqn:E2; [|discriminate].
+    cbn [rbind] in Hlv. injection Hlv as <- <-.
+    assert (HL : List.length (existing ++ rev rest_rev) = (List.length existing + List.length rest_rev)%nat)
+      by (rewrite app_length, rev_length; reflexivity).
+    apply placed_app in Hpl as [Hp1 Hp2].
+    assert (Hk : (ff - 1 < 3)%N) by lia.
+    set (E := List.length existing) in *. set (Lp := (E + List.length rest_rev)%nat) in *.
+    pose proof (pos_reg_reserved Snd Lp) as HS4. pose proof (pos_reg_reserved Fst Lp) as HF4.
+    pose proof (pos_reg_reserved Fst E) as HB4.
+    assert (HneSB : pos_reg Snd Lp <> pos_reg Fst E) by (intro Heq; apply pos_reg_inj in Heq as [Heq _]; discriminate).
+    destruct Hrep as (Hw & Hhp & Hfp).
+    (* this value *)
+    assert (H1 : exists s1 h1 rg1,
+                 star im i s (padd i (List.length c1)) s1 /\ represents s1 h1 /\
+                 (forall r, r <> TEMP -> rget s1 r = rg1 r) /\
+                 lvs_spec (x :: rest_rev) E b ff (rget s) h = lvs_spec rest_rev E b (ff - 1) rg1 h1 /\
+                 lvs_ok rest_rev b (ff - 1) h1 /\
+                 (rest_rev <> [] -> rg1 (pos_reg Fst E) = Some b)).
+    { unfold load_value, load_field in E1.
+      destruct (r_fresh Snd (existing ++ rev rest_rev)) as [tS|] eqn:ES; [|discriminate]. cbn [rbind] in E1.
+      apply r_fresh_ok in ES. rewrite HL in ES. subst tS. fold Lp in E1.
+      cbn [lvs_spec lvs_ok] in *. fold Lp.
+      destruct (bchi x) eqn:Echi.
+      3:{ injection E1 as <- <-. destruct Hp1 as [Hc1 _].
+          exists (rset s (pos_reg Snd Lp) (Some (hword s (b + field_offset Snd (ff - 1))))), h,
+                 (rupd (rget s) (pos_reg Snd Lp) (words h (b + field_offset Snd (ff - 1)))).
+          split; [|split; [|split; [|split; [|split]]]].
+          - exec_next Hc1 0%nat step_LW; [exact Hblk | now apply field_fits12 | now apply field_valid |]. apply star_refl.
+          - split; [|split]; [intros; rewrite hword_rset; apply Hw | | ];
+              (rewrite rget_rset_other; [assumption | intro Heq; rewrite Heq in HS4; vm_compute in HS4; congruence]).
+          - intros r _. unfold rupd. rewrite rget_rset_eqb by assumption. now rewrite Hw.
+          - reflexivity.
+          - exact Hok.
+          - intros _. unfold rupd. destruct (N.eqb_spec (pos_reg Fst E) (pos_reg Snd Lp)); [congruence|exact Hblk]. }
+      all: destruct (r_fresh Fst (existing ++ rev rest_rev)) as [tF|] eqn:EF; [|discriminate]; cbn [rbind] in E1;
+           apply r_fresh_ok in EF; rewrite HL in EF; subst tF; fold Lp in E1;
+           destruct (r_share_block_n (pos_reg Fst Lp) 1 lc) as [c3 lc3] eqn:E3; injection E1 as <- <-;
+           destruct Hok as [Hcv Hok'];
+           apply (placed_app im i (cons _ (cons _ nil)) c3) in Hp1 as [[Hc1 _] Hp3]; cbn [List.length app] in Hp3;
+           assert (Hc3 : c3 = fst (r_share_block_n (pos_reg Fst Lp) 1 lc)) by (now rewrite E3); rewrite Hc3 in Hp3;
+           set (s1 := rset (rset s (pos_reg Snd Lp) (Some (hword s (b + field_offset Snd (ff - 1))))) (pos_reg Fst Lp)
+                        (Some (hword (rset s (pos_reg Snd Lp) (Some (hword s (b + field_offset Snd (ff - 1))))) (b + field_offset Fst (ff - 1)))));
+           (assert (Hrep1 : represents s1 h) by
+              (unfold s1; split; [|split]; [intros; rewrite !hword_rset; apply Hw | | ];
+               (rewrite !rget_rset_other; [assumption | intro Heq; rewrite Heq in HS4; vm_compute in HS4; congruence
+                                                      | intro Heq; rewrite Heq in HF4; vm_compute in HF4; congruence])));
+           (assert (HtF : rget s1 (pos_reg Fst Lp) = Some (words h (b + field_offset Fst (ff - 1)))) by
+              (unfold s1; rewrite rget_rset_same by lia; now rewrite hword_rset, Hw));
+           (destruct (rv_share_block_n_refines im (padd i 2) (pos_reg Fst Lp) 1 lc s1 h (words h (b + field_offset Fst (ff - 1))) Hp3)
+              as (s2 & Hs2 & Hrep2 & Hfr2);
+              [ intro Heq; rewrite Heq in HF4; vm_compute in HF4; congruence
+              | intro Heq; rewrite Heq in HF4; vm_compute in HF4; congruence
+              | intro Heq; rewrite Heq in HF4; vm_compute in HF4; congruence
+              | intro Heq; rewrite Heq in HF4; vm_compute in HF4; congruence
+              | exact Hrep1 | exact HtF | exact Hcv | reflexivity | ]);
+           exists s2, (a_share (words h (b + field_offset Fst (ff - 1))) 1 h),
+                  (rupd (rupd (rget s) (pos_reg Snd Lp) (words h (b + field_offset Snd (ff - 1)))) (pos_reg Fst Lp) (words h (b + field_offset Fst (ff - 1))));
+           (split; [|split; [|split; [|split; [|split]]]];
+            [ exec_next Hc1 0%nat step_LW; [exact Hblk | now apply field_fits12 | now apply field_valid |];
+              exec_next Hc1 1%nat step_LW; [rewrite rget_rset_other by exact HneSB; exact Hblk | now apply field_fits12 | now apply field_valid |];
+              cbn [List.length app padd]; rewrite Hc3; exact Hs2
+            | exact Hrep2
+            | intros r Hr; rewrite Hfr2 by exact Hr; unfold s1, rupd; rewrite !rget_rset_eqb by assumption; rewrite hword_rset, !Hw; reflexivity
+            | reflexivity
+            | exact Hok'
+            | intros Hrest; unfold rupd;
+              assert (HLE : Lp <> E) by (unfold Lp; destruct rest_rev; [contradiction|cbn [List.length]; lia]);
+              destruct (N.eqb_spec (pos_reg Fst E) (pos_reg Fst Lp)) as [Heq|_]; [apply pos_reg_inj in Heq as [_ Heq]; congruence|];
+              destruct (N.eqb_spec (pos_reg Fst E) (pos_reg Snd Lp)) as [Heq|_]; [congruence|exact Hblk] ]). }
+    destruct H1 as (s1 & h1 & rg1 & Hs1 & Hrep1 & Hr1 & Hspec & Hok1 & Hb1).
+    rewrite Hspec.
+    destruct rest_rev as [|y rest'].
+    + cbn [load_values] in E2. injection E2 as <- <-. cbn [lvs_spec].
+      exists s1. split; [|split].
+      * rewrite app_nil_r. exact Hs1.
+      * exact Hrep1.
+      * exact Hr1.
+    + assert (Hblk1 : rget s1 (pos_reg Fst E) = Some b).
+      { rewrite Hr1; [apply Hb1; discriminate|]. intro Heq. rewrite Heq in HB4. vm_compute in HB4. congruence. }
+      destruct (IH existing (ff - 1)%N c2 lc1 lc2 (padd i (List.length c1)) s1 h1 b E2 ltac:(cbn [List.length] in *; lia) ltac:(lia) Hp2 Hrep1 Hblk1 Hvb Hok1)
+        as (s2 & Hs2 & Hrep2 & Hr2).
+      exists s2. split; [|split].
+      * rewrite app_length, padd_add. eapply star_trans; eassumption.
+      * rewrite (lvs_spec_heap_indep _ _ _ _ rg1 (rget s1)). exact Hrep2.
+      * intros r Hr. rewrite Hr2 by exact Hr. apply lvs_spec_pointwise. now apply Hr1.
+Qed.
+
+(* `switch`/`invoke` loading 1..3 values from a block that has other references (header <> 0):
+   the header is decremented, the fields are loaded and every loaded pointer gains a reference *)
+Theorem rv_load_one_block_share_refines : forall im i to_load existing lc cs lc' s h b,
+  to_load <> [] -> (List.length to_load <= 3)%nat ->
+  r_load to_load existing lc = Ok (cs, lc') ->
+  placed im i cs ->
+  represents s h ->
+  rget s (pos_reg Fst (List.length existing)) = Some b -> valid_block b ->
+  words h b <> 0 ->
+  let h' := {| words := upd (words h) b (wrap (words h b - 1)); hp := hp h; fp := fp h |} in
+  lvs_ok (rev to_load) b 3 h' ->
+  exists s',
+    star im i s (padd i (List.length cs)) s' /\
+    represents s' (snd (lvs_spec (rev to_load) (List.length existing) b 3 (rget s) h')) /\
+    (forall r, r <> TEMP -> rget s' r = fst (lvs_spec (rev to_load) (List.length existing) b 3 (rget s) h') r).
+Proof.
+  intros im i to_load existing lc cs lc' s h b Hne Hlen Hld Hpl (Hw & Hhp & Hfp) Hmb Hvb Hrc h' Hok.
+  destruct (r_load_one_block _ _ _ _ _ Hne Hlen Hld) as (thenv & elsev & lc2 & Hthen & Helse & ->).
+  set (mb := pos_reg Fst (List.length existing)) in *.
+  pose proof (pos_reg_reserved Fst (List.length existing)) as Hmb4. fold mb in Hmb4.
+  assert (Hb0 : valid_addr (b + 0)) by (replace (b + 0) with (b + 8 * 0) by lia; apply Hvb; lia).
+  assert (Hbpos : 0 < b) by (apply valid_pos; now rewrite Z.add_0_r in Hb0).
+  assert (HmT : TEMP <> mb) by (intro Heq; rewrite <- Heq in Hmb4; vm_compute in Hmb4; congruence).
+  assert (HmH : HEAP <> mb) by (intro Heq; rewrite <- Heq in Hmb4; vm_compute in Hmb4; congruence).
+  assert (HmF : FREE <> mb) by (intro Heq; rewrite <- Heq in Hmb4; vm_compute in Hmb4; congruence).
+  set (P := [LW TEMP mb 0; BEQ TEMP ZERO (lab (lc2 + 1)); ADDI TEMP TEMP (-1); SW TEMP mb 0]).
+  set (T := LAB (lab (lc2 + 1)) :: release_block mb ++ thenv).
+  assert (Ecs : [LW TEMP mb 0; BEQ TEMP ZERO (lab (lc2 + 1))] ++ ([ADDI TEMP TEMP (-1); SW TEMP mb 0] ++ elsev)
+                ++ [JAL ZERO (lab (lc2 + 2)); LAB (lab (lc2 + 1))] ++ (release_block mb ++ thenv) ++ [LAB (lab (lc2 + 2))]
+                = P ++ elsev ++ [JAL ZERO (lab (lc2 + 2))] ++ T ++ [LAB (lab (lc2 + 2))]).
+  { unfold P, T. cbn [app]. rewrite <- !app_assoc. reflexivity. }
+  rewrite Ecs in *. clear Ecs.
+  assert (Hlelse : find_label (labels im) (lab (lc2 + 2)) =
+                   Some (padd i (List.length P + (List.length elsev + (1 + List.length T))))).
+  { destruct Hpl as [_ HL]. apply HL.
+    rewrite nth_error_app2 by lia. replace (List.length P + (List.length elsev + (1 + List.length T)) - List.length P)%nat with (List.length elsev + (1 + List.length T))%nat by lia.
+    rewrite nth_error_app2 by lia. replace (List.length elsev + (1 + List.length T) - List.length elsev)%nat with (1 + List.length T)%nat by lia.
+    cbn [app nth_error Nat.add]. rewrite nth_error_app2 by lia. now rewrite Nat.sub_diag. }
+  apply placed_app in Hpl as [[HcP _] Hpl].
+  apply placed_app in Hpl as [Hpe Hpl].
+  apply placed_app in Hpl as [[HcJ _] Hpl].
+  apply placed_app in Hpl as [_ [HcE _]].
+  rewrite <- !padd_add in *.
+  (* header decrement *)
+  assert (H4 : exists s4, star im i s (padd i (List.length P)) s4 /\ represents s4 h' /\
+                          (forall r, r <> TEMP -> rget s4 r = rget s r)).
+  { eexists. split; [|split].
+    - eapply star_step; [apply (one_at_next im i P 0 _ s _ HcP eq_refl); intros a0; eapply step_LW; [exact Hmb | reflexivity | exact Hb0] |].
+      eapply star_step; [apply (one_at_next im i P 1 _ _ _ HcP eq_refl); intros a0; eapply step_BEQ0_not; [regs; reflexivity | rewrite Z.add_0_r, Hw; exact Hrc] |].
+      eapply star_step; [apply (one_at_next im i P 2 _ _ _ HcP eq_refl); intros a0; eapply step_ADDI; [regs; reflexivity | reflexivity] |].
+      eapply star_step; [apply (one_at_next im i P 3 _ _ _ HcP eq_refl); intros a0; eapply step_SW; [regs; exact Hmb | regs; reflexivity | reflexivity | exact Hb0] |].
+      apply star_refl.
+    - unfold h'. rewrite !Z.add_0_r. split; [|split]; cbn [words hp fp].
+      + intros a. rewrite hword_sstore by assumption. rewrite !hword_rset.
+        unfold upd. destruct (a =? b); [now rewrite Hw|apply Hw].
+      + regs. exact Hhp.
+      + regs. exact Hfp.
+    - intros r Hr. regs. reflexivity. }
+  destruct H4 as (s4 & Hs4 & Hrep4 & Hfr4).
+  assert (Hmb4' : rget s4 mb = Some b) by (rewrite Hfr4 by congruence; exact Hmb).
+  destruct (rv_load_values_share im (rev to_load) existing 3 elsev lc lc2 (padd i (List.length P)) s4 h' b Helse
+              ltac:(rewrite rev_length; lia) ltac:(lia) Hpe Hrep4 Hmb4' Hvb Hok) as (s5 & Hs5 & Hrep5 & Hr5).
+  exists s5. split; [|split].
+  - eapply star_trans; [exact Hs4|]. eapply star_trans; [exact Hs5|].
+    rewrite <- padd_add.
+    replace (padd i (List.length P + List.length elsev)) with (padd (padd i (List.length P + List.length elsev)) 0) by reflexivity.
+    eapply star_step; [apply (one_at_jump im _ _ 0 _ _ _ _ HcJ eq_refl); intros a0; eapply step_JAL0; exact Hlelse |].
+    replace (padd i (List.length P + (List.length elsev + (1 + List.length T))))
+      with (padd (padd i (List.length P + (List.length elsev + (List.length [JAL ZERO (lab (lc2 + 2))] + List.length T)))) 0) by reflexivity.
+    eapply star_step; [apply (one_at_next im _ _ 0 _ _ _ HcE eq_refl); intros a0; apply step_LAB |].
+    replace (padd (padd i (List.length P + (List.length elsev + (List.length [JAL ZERO (lab (lc2 + 2))] + List.length T)))) 1)
+      with (padd i (List.length (P ++ elsev ++ [JAL ZERO (lab (lc2 + 2))] ++ T ++ [LAB (lab (lc2 + 2))]))).
+    2:{ rewrite <- padd_add. f_equal. rewrite !app_length. cbn [List.length]. lia. }
+    apply star_refl.
+  - rewrite (lvs_spec_heap_indep _ _ _ _ (rget s) (rget s4)). exact Hrep5.
+  - intros r Hr. rewrite Hr5 by exact Hr. apply lvs_spec_pointwise. now apply Hfr4.
+Qed.
